@@ -66,6 +66,8 @@ def normalize_node(n):
     n.setdefault("fallback", NONE)
     n.setdefault("script", [[NONE]])
     n.setdefault("fail_at", [])
+    n.setdefault("fail_args", [])
+    n.setdefault("dec_args", [])
     n.setdefault("pause_at", [])
     n.setdefault("fn", "term")
     n.setdefault("cache", False)
